@@ -54,8 +54,8 @@ AllCalls ==
 Enabled(s, c) ==
     /\ s.mode = "open"
     /\ CASE c[1] = "src"   -> ~s.src
-         [] c[1] = "fsr"   -> s.src /\ s.kind[c[2]] = "none"
-         [] c[1] = "vsr"   -> s.src /\ s.kind[c[2]] = "none"
+         [] c[1] = "fsr"   -> s.kind[c[2]] = "none"            \* without a source definition the signal belongs to source 0
+         [] c[1] = "vsr"   -> s.kind[c[2]] = "none"
          [] c[1] = "wr"    -> s.kind[c[2]] = "fsr" /\ s.wr[c[2]] < CapWr
          [] c[1] = "gap"   -> s.kind[c[2]] = "fsr" /\ s.wr[c[2]] < CapWr /\ s.len[c[2]] > 0    \* a write that skips ahead
          [] c[1] = "anno"  -> (c[2] = 0 /\ s.an[0] < CapAnno0) \/ (c[2] # 0 /\ s.kind[c[2]] # "none" /\ s.an[c[2]] < CapAnno)
@@ -88,7 +88,6 @@ TypeOk == /\ S.mode \in {"open", "closed"}
           /\ \A g \in Sig : S.kind[g] \in {"none", "fsr", "vsr"} /\ S.len[g] \in 0..2 /\ S.wr[g] \in 0..CapWr
           /\ \A g \in Sig : (S.kind[g] # "fsr") => (S.len[g] = 0 /\ S.wr[g] = 0 /\ S.ut[g] = 0)
           /\ \A g \in Sig : (S.kind[g] = "none") => S.an[g] = 0
-          /\ (S.len[1] = 0 /\ S.len[2] = 0) \/ S.src
           /\ S.kind[1] # "vsr"
 \* the shapes the random generators never produced are reachable: no FSR signal at all, yet something to repair
 NoFsrShapeReachable == ~(S.mode = "closed" /\ S.kind[1] = "none" /\ S.kind[2] = "none" /\ S.an[0] = CapAnno0)
